@@ -446,7 +446,10 @@ func main() {
 	res.Assume("the state map of validate.Ordered is process-wide: names are fresh per history and every run is a fresh process")
 	res.Assume("carbon20.ValidatePacket strips one leading dot from the name it returns (read in go-metrics20 validate.go); '.foo' and 'foo' are one name")
 	res.Assume("timestamps are integral and in [1, 2^32-1]; timestamp 0 is not generated (the property only speaks about positive timestamps)")
-	n := mon.N(300, 20000)
+	n := mon.N(300, 12000)
+	if _, k := mon.Shard(); k >= 4 && mon.Thorough() {
+		n = 30000 // the design's count needs the driver to spread the histories over >= 4 processes
+	}
 	if v := os.Getenv("C19_HISTORIES"); v != "" { // diagnostics only
 		n, _ = strconv.Atoi(v)
 	}
